@@ -260,6 +260,19 @@ def H(name, scalar=True):
     return nf.sym(f"{name}@head", scalar)
 
 
+def trial_end(p):
+    """End of the trial interval of one iteration: min(curr_t + step_size, ts[-1]), or ts[-1] itself on a path where
+    the code merged a rounding-size remainder into the last step (R12.2 admits exactly these two); None otherwise."""
+    ref_end = nf.fn("min", *sorted([H("curr_t") + H("step_size"), nf.sym("ts[-1]", True)],
+                                   key=lambda v: repr(Rat.lift(v).key())))
+    t_end = nf.sym("ts[-1]", True)
+    ends = [tb for ta, tb, y, e, n in p.steps if nf.equal(ta, H("curr_t"))]
+    for cand in (ref_end, t_end):
+        if any(nf.equal(tb, cand) for tb in ends):
+            return cand
+    return None
+
+
 def _same(a, b):
     if isinstance(a, (tuple, list)) or isinstance(b, (tuple, list)):
         return isinstance(a, (tuple, list)) and isinstance(b, (tuple, list)) and len(a) == len(b) and \
@@ -311,3 +324,65 @@ def rule_tiling(ctx, rule_id):
     if n < 4:
         raise AnalysisError(f"{rule_id}: only {n} self.step call(s) found on the paths of the stepping loop")
     ctx.floor(rule_id, 6)
+
+
+def rule_last_steps(ctx, rule_id, drift=True):
+    """Exact-arithmetic model of one iteration of the stepping loop near the end of the horizon.  The grid is accumulated
+    in floating point, so curr_t can sit a rounding error `delta` away from ts[0] + k dt.  In the model (dt = 1/10,
+    ts[-1] = 8/10, exact rationals) the iteration starting one step (plus or minus delta) before ts[-1] must end exactly
+    at ts[-1]: a remainder of rounding-error size must not become a step of its own (a reversible-Heun step of length
+    ~0 is not the identity: it reflects z about y, and the reversed solve has its remainder at the other end).  A genuine
+    remainder (dt/2, dt/10) must stay a clipped step of its own (property C12: last step clipped to ts[-1])."""
+    rep, model = ctx.rep, ctx.model
+    rep.rule(rule_id, "model of the last steps in exact rationals (dt = 1/10, ts[-1] = 8/10): "
+                      + ("from curr_t = ts[-1] - dt -/+ delta (delta = dt * 1e-9 .. 1e-15, the accumulated rounding error of "
+                         "the grid) the step ends exactly at ts[-1] -- no step of rounding-error length is left over; "
+                         if drift else "")
+                      + "a genuine remainder (dt/2, dt/10) stays a clipped step of its own; an exact grid ends at ts[-1]")
+    fi, prologue, for_node, while_node, tail, epilogue = loop_structure(model)
+    rep.analysed(fi)
+    dt, T = Fraction(1, 10), Fraction(8, 10)
+    cases = []
+    for k in ((9, 12, 15) if drift else ()):
+        d = dt / Fraction(10) ** k
+        cases.append((f"drift -dt*1e-{k}", T - dt - d, T, f"the remainder dt*1e-{k} is accumulated rounding error"))
+        cases.append((f"drift +dt*1e-{k}", T - dt + d, T, "the step is clipped to ts[-1]"))
+    cases.append(("remainder dt/2", T - dt - dt / 2, T - dt / 2, "a genuine remainder is a clipped step of its own"))
+    cases.append(("remainder dt/10", T - dt - dt / 10, T - dt / 10, "a genuine remainder is a clipped step of its own"))
+    cases.append(("exact", T - dt, T, "exact grid"))
+    for adaptive in (False, True):
+        for name, start, want_end, why in cases:
+            steps = []
+            self_obj = make_self(model, adaptive, steps)
+            self_obj.attrs["dt"] = dt
+            self_obj.attrs["dt_min"] = dt / 1000
+
+            def getitem(it, obj, idx, node, f2, T=T):
+                if idx == 0:
+                    return Fraction(0)
+                if idx == -1:
+                    return T
+                raise AnalysisError(f"unexpected index into ts: {idx!r}", where=astq.loc(f2, node))
+            env = head_env(self_obj, Obj("ts", getitem_hook=getitem), T)
+            env.update({"curr_t": start, "prev_t": start - dt, "step_size": dt})
+            hooks = LoopHooks({})
+            it = Interp(model, hooks)
+            construct = f"{fi.key}::{rule_id}::{'adaptive' if adaptive else 'fixed'}::{name}"
+            try:
+                it.exec_block(while_node.body, env, fi)
+            except Exception as e:          # SimRaise / AnalysisError: the model could not be evaluated
+                raise AnalysisError(f"{rule_id} model ({name}): {e}", where=astq.loc(fi, while_node))
+            firsts = [tb for ta, tb, y, e, node in steps if isinstance(ta, Fraction) and ta == start]
+            ends = [tb for tb in firsts if isinstance(tb, Fraction)]
+            if not ends:
+                raise AnalysisError(f"{rule_id} model ({name}): no step starts at the loop-head time", where=astq.loc(fi, while_node))
+            end = max(ends)
+            rep.check(end == want_end, rule_id, astq.loc(fi, while_node), construct,
+                      f"model dt=1/10, ts[-1]=8/10, curr_t = {float(start):.17g} ({name}): the step ends at ts[-1] - "
+                      f"{float(T - end):.3g} instead of ts[-1] - {float(T - want_end):.3g} ({why}); with floating-point "
+                      f"accumulation (e.g. ts=[0, 0.8], dt=0.1) the solver then takes an extra step of rounding-error length, "
+                      f"which reversible Heun does not undo (forward/backward grids differ): reconstruction error ~5e-3, "
+                      f"adjoint gradients off by ~1e-2", why)
+    ctx.floor(rule_id, 16 if drift else 6)
+
+
